@@ -101,14 +101,7 @@ func c07wUniverse() []CircuitKey {
 func (w *c07w) chans() ([]*chanstate.OpenChannel, error) {
 	var res []*chanstate.OpenChannel
 	for _, a := range w.wenv.active {
-		res = append(res, &chanstate.OpenChannel{
-			ShortChannelID: c07wSid(a.ch),
-			IsPending:      a.pending,
-			Db:             &c07Store{pendingIdx: a.pendingIdx},
-			RemoteCommitment: chanstate.ChannelCommitment{
-				LocalHtlcIndex: a.remoteIdx,
-			},
-		})
+		res = append(res, c07OpenChan(a, &c07Store{pendingIdx: a.pendingIdx}))
 	}
 	return res, nil
 }
@@ -507,11 +500,7 @@ func (w *c07w) wRestart(env c07Env) {
 	w.wenv = env
 	var ac []string
 	for _, x := range env.active {
-		p := "-"
-		if x.pendingIdx >= 0 {
-			p = strconv.FormatInt(x.pendingIdx, 10)
-		}
-		ac = append(ac, fmt.Sprintf("%d:%d:%d:%s", x.ch, c07b(x.pending), x.remoteIdx, p))
+		ac = append(ac, c07ActiveStr(x))
 	}
 	_ = w.s.Stop()
 	w.s, w.cm, w.sw = nil, nil, nil
@@ -567,6 +556,7 @@ func (w *c07w) genEnv() c07Env {
 			continue // unknown to the channel DB
 		}
 		a := c07Active{ch: ch, pending: w.p(4), pendingIdx: -1}
+		w.c07Kind(&a, 4)
 		// the peer only answered HTLCs that are on a commitment: the next
 		// local htlc index lies above every answered out id
 		lo := w.maxEntOut(ch) + 1
@@ -767,7 +757,7 @@ func (w *c07w) scriptedW() {
 	env := func(idx2 uint64) c07Env {
 		e := c07Env{res: map[CircuitKey]bool{}}
 		e.active = []c07Active{
-			{ch: 1, pendingIdx: -1}, {ch: 2, remoteIdx: idx2, pendingIdx: -1},
+			{ch: 1, pendingIdx: -1, kind: 1}, {ch: 2, remoteIdx: idx2, pendingIdx: -1, kind: 3, real: 102},
 			{ch: 3, pendingIdx: -1}, {ch: 4, pendingIdx: -1},
 		}
 		return e
